@@ -222,6 +222,15 @@ func runC14(c *Ctx) {
 			}
 		}
 	}
+	if c.Level("fixed:many groups") {
+		ten := "(a)(b)(c)(d)(e)(f)(g)(h)(i)(j)"
+		for _, rs := range []string{ten + `\\10`, ten + `\\1\\10`, ten + `(k)\\11\\10`, ten + `\\9\\10`, "(a)(b)(c)(d)(e)(f)(g)(h)(i)(j|a)\\10", ten + "(k)(l)(m)(n)(o)(p)(q)(r)(s)(t)\\20\\10"} {
+			rs := strings.ReplaceAll(rs, `\\\\`, `\\`)
+			if c.Unit(func() string { return "@/" + rs + "/" }) {
+				c14Unit(c, RX{S: rs, N: 12}, []string{"abcdefghijj", "abcdefghija0", "abcdefghijaj", "abcdefghijkkj", "abcdefghijij", "abcdefghiaa", "abcdefghijklmnopqrsttj", "abcdefghij", ""})
+			}
+		}
+	}
 	gr := newRxGram(true)
 	t4 := texts("ab\n", 4)
 	for n := 1; n <= c.Pick(4, 5); n++ {
